@@ -50,7 +50,7 @@ def required_regimes(tier):
             need.add('c%s:%s' % (m, t))
     need.add('2d:h!=w')
     need.add('reflect:allowed_raise')
-    need |= {'variant:N=1', 'variant:C=2'}
+    need |= {'variant:N=1', 'variant:C=2', 'variant:no_grad'}
     # reflect with a level shorter than the filter always raises in the implementation (allowed by C01)
     return need - {'reflect:lt_L', 'rreflect:lt_L', 'creflect:lt_L'}
 
@@ -95,6 +95,14 @@ def _shape_variants(res, cfg, tags, call, X, impl):
         return
     res['impl_calls'] += 2
     res.regime('variant:N=1', 'variant:C=2')
+    import torch as _t
+    with _t.no_grad():
+        ng = call(X)
+    for a_, b_ in zip(ng, impl):
+        if a_.shape != b_.shape or not np.array_equal(a_, b_):
+            res.violation('analysis_vs_pywt', dict(cfg, variant='no_grad'), {'kind': 'value_or_shape', 'what': 'result under no_grad differs'}, tags)
+            return
+    res.regime('variant:no_grad')
     for b1, b2, b in zip(one, two, impl):
         if b1.shape != b[:1].shape or common.maxabs(b1 - b[:1]) > common.TOL:
             res.violation('analysis_vs_pywt', dict(cfg, variant='N=1'), {'kind': 'value_or_shape', 'observed_shape': list(b1.shape), 'expected_shape': list(b[:1].shape)}, tags)
